@@ -490,6 +490,54 @@ sys.exit(0)
 """
 
 
+INTERFERENCE_GRAPHS = [
+    # declarations over four fresh units whose routes disagree (the user may declare anything: which
+    # route a conversion takes must still not depend on what was asked before)
+    [("declare", 0, 1, 2), ("declare", 1, 2, 3), ("declare", 2, 3, 5), ("declare", 0, 3, 31)],
+    [("declare", 0, 3, 31), ("declare", 0, 1, 2), ("declare", 1, 2, 3), ("declare", 2, 3, 5)],
+    [("declare", 0, 1, 2), ("declare", 1, 3, 7), ("declare", 0, 2, 3), ("declare", 2, 3, 5)],
+]
+
+
+def query_interference(rep: report.Report, mc: Dict[str, Any]) -> None:
+    """Only when the query path keeps state of its own besides the two known caches (found by the
+    AST analysis): the abstract history model has no notion of WHICH route a remembered row
+    stands for, so every ordered pair of queries over small declaration graphs with disagreeing
+    routes is run on the real library -- the later query with and without the earlier one, each in
+    a fresh process.  A finite audit, listed as such in the evidence."""
+    from concurrent.futures import ThreadPoolExecutor
+
+    os.makedirs(report.REPLAY_DIR, exist_ok=True)
+    pairs = [(i, j) for i in range(4) for j in range(4) if i != j]
+    jobs = [(g, q1, q2) for g in INTERFERENCE_GRAPHS for q1 in pairs for q2 in pairs if q1 != q2]
+
+    def probe(job: Tuple) -> bool:
+        g, q1, q2 = job
+        h = list(g) + [("query",) + q1, ("query",) + q2]
+        tmp = os.path.join(report.REPLAY_DIR, f"_c08_qi_{abs(hash(str(h)))}.py")
+        with open(tmp, "w") as f:
+            f.write("import sys\n" + replay(h, "length"))
+        ok, _ = report.run_replay(tmp)
+        os.remove(tmp)
+        return ok
+
+    with ThreadPoolExecutor(16) as tp:
+        oks = list(tp.map(probe, jobs))
+    name = (f"state kept on the query path ({mc['generic_caches']}): {len(jobs)} ordered pairs of queries over "
+            f"{len(INTERFERENCE_GRAPHS)} declaration graphs with disagreeing routes answer as in a fresh process")
+    hits = [job for job, ok in zip(jobs, oks) if ok]
+    rep.coverage["query_interference_pairs"] = len(jobs)
+    if not hits:
+        rep.ob("unsat", name, ("query-interference",))
+        return
+    rep.ob("sat", name, ("query-interference",))
+    g, q1, q2 = hits[0]
+    h = list(g) + [("query",) + q1, ("query",) + q2]
+    rep.violation("C08:query-interference", f"history {h}: the conversion {q2} answers differently after the "
+                  f"conversion {q1} than in a fresh process with the same declarations ({len(hits)} of {len(jobs)} "
+                  f"query pairs)", replay(h, "length"))
+
+
 def validate_abstraction(rep: report.Report, tier: str) -> int:
     """fresh(D)(i,j) of the model vs the real in_unit with empty caches, for every declaration
     graph on 3 nodes."""
@@ -724,6 +772,8 @@ def main(tier: str, selftest_cases: int = 0) -> int:
             rep.sample({"generic": mc["generic_caches"], "N": N, "L": L, "histories": len(r["histories"]),
                         "verdict": verdict})
             break
+    if mc["generic_caches"]:
+        query_interference(rep, mc)
     construction_order(rep, tier)
     # memoised functions may only conflate calls they cannot tell apart (engine/memokeys.py)
     from engine import memokeys
